@@ -19,6 +19,8 @@ EXPLANATION = (
 
 
 def run(ctx: Ctx) -> None:
+    from ..rules import solvers as _slv
+    _slv.rule_shared_default(ctx)
     solvers.rule_own_hof(ctx)
     from ..rules import memo as _memo
     _memo.rule_memo_sound(ctx, ['graphiq/solvers/solver_base.py', 'graphiq/solvers/evolutionary_solver.py'])
@@ -44,6 +46,8 @@ def run(ctx: Ctx) -> None:
 
 
 KNOCKOUTS = [
+    Knockout("setting-keywords-written-into-default-instance", SB, sub_once("        self.setting = solver_setting\n        self.hof = [(np.inf, None)", "        self.setting = solver_setting\n        for key, value in kwargs.items():\n            setattr(self.setting, key, value)\n        self.hof = [(np.inf, None)"), "effect.shared-default", "shared default"),
+    Knockout("tournament-one-deepcopy-of-the-list", SB, sub_once("            population_new.append(copy.deepcopy(best))\n        return population_new", "            population_new.append(best)\n        return copy.deepcopy(population_new)"), "effect.hof-copy", "one deepcopy"),
     Knockout("member-rescoring-skipped-when-node-count-unchanged", EVO, sub_once("                transformation(circuit)\n                circuit.validate()\n", "                n_nodes = circuit.dag.number_of_nodes()\n                transformation(circuit)\n                circuit.validate()\n                if i > 0 and circuit.dag.number_of_nodes() == n_nodes:\n                    continue\n"), "score.fresh", "skipped on some path"),
     Knockout("noise-flag-from-one-qubit-sections-only", EVO, sub_once("            self.noise_simulation = True\n", "            self.noise_simulation = any(len(noise_model_mapping.get(k, {})) > 0 for k in (\"e\", \"p\"))\n"), "keys.cover", "summarised over"),
     Knockout("hof-seeded-directly", "graphiq/solvers/hybrid_solvers.py", sub_once("        _, ideal_circuit = deterministic_solver.result\n", "        s0, ideal_circuit = deterministic_solver.result\n        self.hof[0] = (s0, ideal_circuit)\n"), "own.hof", "outside update_hof"),
